@@ -105,6 +105,11 @@ func (es *eosState) run(m *eosMember, pattern []plan.Op) (needReplace bool) {
 		if fs.NumRecords() == 0 {
 			continue
 		}
+		// the application may take its time between the poll and Begin
+		// (the order of the repository's own example: poll, Begin, produce, End)
+		if n := s.P.Knob("pre_begin_ms", 0); n > 0 {
+			time.Sleep(time.Duration(n) * time.Millisecond)
+		}
 		if err := m.sess.Begin(); err != nil {
 			s.Logf("%s: Begin: %v", m.name, err)
 			s.Probe("eos_begin_error")
@@ -324,6 +329,9 @@ func scenEOS(s *Sim) {
 		return out, true
 	}
 	bound := time.Duration(p.Knob("liveness_bound_ms", 360000)) * time.Millisecond
+	// an application that takes its time before every Begin may need that
+	// time once per input (a poll can return a single record)
+	bound += time.Duration(int64(len(inputs))*(p.Knob("pre_begin_ms", 0)+p.Knob("process_ms", 0))) * time.Millisecond
 	var last map[string]int
 	complete := s.WaitFor(bound, 2*time.Second, func() bool {
 		v, ok := view()
